@@ -4,7 +4,6 @@ package main
 // parsing the REST calls the real code emits back into structured form.
 
 import (
-	"bytes"
 	"encoding/json"
 	"fmt"
 	"sort"
@@ -238,7 +237,7 @@ func parseCall(method, url, body string) (Call, error) {
 			if method == "PATCH" {
 				k = "AS"
 			}
-			return Call{Kind: k, Id: id, Defn: d}, nil
+			return Call{Kind: k, Id: id, Defn: d, RawDefn: string(v.ServiceEntries)}, nil
 		}
 	case strings.HasPrefix(url, uGroups):
 		rest := url[len(uGroups):]
